@@ -218,6 +218,7 @@ package iscp
 //@   after call CompareAndSwapNot: moved = res0
 //@   ensures[C05] imp(result == nil, okAttempt)
 //@   ensures[C05] imp(result != nil && connErr, !moved)
+//@   ensures[C05] imp(result != nil && connErr, c.state.current == connStatusClosed)   // ... which happens only on a Closed connection (an outage somebody else has already announced is waited out like any other)
 //@   loop 1 invariant c.state == old(c.state) && c.state.cond != nil && c.state.RWMutex != nil
 //@   loop 1 invariant imp(old(c.state.current) == connStatusClosed, c.state.current == connStatusClosed)
 
